@@ -45,6 +45,7 @@ Definition gt_init (g : gt) (now cost grow step : Z) (ranks : list Z) : res gt :
   if step =? 0 then Err 2 else
   let rk := firstn MAX_RANK ranks in
   if negb (strictly_sorted rk) then Err 2 else
+  if (match rk with first :: _ => first =? 0 | [] => false end) then Err 2 else     (* a zero threshold is rejected *)
   Ok (mkgt now 0 step (g_steps g) 0 (g_cum_ts g) 0 (g_cum g) grow cost DEFAULT_WINDOW rk).
 
 (* ---- next_minting_cost ---- *)
